@@ -17,7 +17,7 @@ CONFIG = {
                    "with generation, format, digest and action."),
     "level_note": "the order among sections of sibling nested histories is not judged; renamed files with -v are not generated.",
     "technique": "deterministic simulation: seeded histories; info output parsed against an independent reading of the manifests",
-    "quick": {"runs": 240, "budget_s": 60},
+    "quick": {"runs": 720, "budget_s": 90},
     "thorough": {"runs": 5000, "budget_s": 540},
     "rule": ("one run = random (nested) history + info variants; one evaluation = one info invocation. Distinct = (variant, "
              "#histories, max #generations, file depth in nested histories, #lines printed, exit); non-trivial = history "
@@ -31,7 +31,12 @@ SF_LINE = re.compile(r"^  Generation (\d+) \((.*?)\) (\w+): (\S+) \((\w+)\)$")
 
 
 def generate(rng, tier):
-    sc = explore.generate(rng, tier, WEIGHTS, hostile=0.15)
+    if rng.random() < 0.4:
+        from . import c08
+
+        sc = c08.generate(rng, tier)  # deep chains / prefix-named siblings
+    else:
+        sc = explore.generate(rng, tier, WEIGHTS, hostile=0.15)
     sc["ops"] = [o for o in sc["ops"] if not (scen.is_cmd(o) and o["argv"][0] == "flatten")]
     if rng.random() < 0.08:
         sc["ops"] = [o for o in sc["ops"] if not scen.is_cmd(o)]  # no history at all
